@@ -12,7 +12,8 @@
 From Coq Require Import List NArith ZArith Bool.
 From Abasic Require Import Model.Bytes Model.Num Model.Token Model.Data Model.Lexer Gen.Tables
      Model.State Model.Eval Model.Interp Proofs.Monad Proofs.Frames Proofs.StoreProofs
-     Proofs.ResetProofs Proofs.Safety Proofs.FlagsSim Proofs.InputProofs Proofs.RunInv Proofs.BreakCont.
+     Proofs.ResetProofs Proofs.Safety Proofs.FlagsSim Proofs.InputProofs Proofs.RunInv Proofs.BreakCont
+     Proofs.EditProbes Proofs.Inspect.
 Import ListNotations.
 Local Open Scope nat_scope.
 
@@ -86,6 +87,34 @@ Theorem C07_inspect : forall fuel s1 s2 ops,
   /\ run_state fuel s1 (HLine CONT :: ops) = run_state fuel s2 (HLine CONT :: ops).
 Proof. exact continuation_reads_runtime_only. Qed.
 
+(* ... and an inspection line DOES leave the runtime part alone
+   (Proofs/Inspect.v).  [imm_line text ts]: the text is no command, has no line
+   number and tokenizes to ts.  [insp_line ts]: PRINT / ? statements separated
+   by ":" over ANY item lists and expressions in which no name is followed by
+   "(" except ABS and INT (no array reference — it may dimension the array —,
+   no RND — it advances the generator —, no user-function call).  Typed at a
+   breakpoint and driven by any number of continue calls, succeeding or
+   failing ([values]: each call answers a value or an error): the runtime part
+   ([core]: everything but cursor, immediate line, output queue, state flag and
+   hook counter) never changes, and once the interpreter is idle again its
+   [norm] is the one at the breakpoint ... *)
+Theorem C07_inspection_keeps_runtime : forall fuel text ts s0,
+  state s0 = Idle -> breakpoint s0 <> None -> outputs s0 = [] ->
+  imm_line text ts -> insp_line ts = true ->
+  forall k, values fuel s0 (HLine text :: conts k) ->
+  let s := run_state fuel s0 (HLine text :: conts k) in
+  Mid ts s0 s /\ (state s = Idle -> norm s = norm s0).
+Proof. exact inspection_keeps_runtime. Qed.
+
+(* ... so CONT after it, and the whole continuation, is CONT without it *)
+Theorem C07_inspection_transparent : forall fuel text ts s0 k ops,
+  state s0 = Idle -> breakpoint s0 <> None -> outputs s0 = [] ->
+  imm_line text ts -> insp_line ts = true -> values fuel s0 (HLine text :: conts k) ->
+  state (run_state fuel s0 (HLine text :: conts k)) = Idle ->
+  transcript fuel (run_state fuel s0 (HLine text :: conts k)) (HLine CONT :: ops) = transcript fuel s0 (HLine CONT :: ops)
+  /\ run_state fuel (run_state fuel s0 (HLine text :: conts k)) (HLine CONT :: ops) = run_state fuel s0 (HLine CONT :: ops).
+Proof. exact inspection_transparent. Qed.
+
 (* No evaluator ever returns a tokenizer error, so the row of "CONT" (which has
    a source text) and the row of a plain continue (which has none) render the
    same caret. *)
@@ -126,6 +155,25 @@ Proof.
   vm_compute. repeat split; congruence.
 Qed.
 
+(* non-vacuity of the inspection theorem: the program above, broken inside the
+   subroutine inside the loop; a three-statement inspection line whose second
+   statement fails *)
+Example C07_inspection_example :
+  let s0 := run_state 300 C07_s0 [HCont; HCont; HCont; HBreak] in
+  let text := bs "PRINT I; A : ? ABS(0-I)/0 : PRINT X" in
+  state s0 = Idle /\ breakpoint s0 <> None /\ outputs s0 = []
+  /\ (exists ts, imm_line text ts /\ insp_line ts = true)
+  /\ values 300 s0 (HLine text :: conts 2)
+  /\ state (run_state 300 s0 (HLine text :: conts 2)) = Idle
+  /\ snd (transcript 300 s0 (HLine text :: conts 2)) = [(EDivisionByZero, Some (mkloc None 13))].
+Proof.
+  cbn zeta. split; [vm_compute; reflexivity|]. split; [vm_compute; discriminate|]. split; [vm_compute; reflexivity|].
+  split.
+  { eexists. split; [split; [vm_compute; reflexivity | split; [vm_compute; reflexivity | eexists; split; [vm_compute; reflexivity | reflexivity]]]|].
+    vm_compute. reflexivity. }
+  split; [vm_compute; repeat split|]. split; vm_compute; reflexivity.
+Qed.
+
 Print Assumptions C07_break_cont_running.
 Print Assumptions C07_break_cont_awaiting.
 Print Assumptions C07_run_establishes.
@@ -133,3 +181,5 @@ Print Assumptions C07_invariant_kept.
 Print Assumptions C07_schedule.
 Print Assumptions C07_inspect.
 Print Assumptions C07_no_tokenizer_error_at_run_time.
+Print Assumptions C07_inspection_keeps_runtime.
+Print Assumptions C07_inspection_transparent.
